@@ -5,9 +5,12 @@ package unifier
 import (
 	"encoding/json"
 	"errors"
+	"sync"
+	"sync/atomic"
 	"testing"
 	"time"
 
+	"github.com/thushan/olla/internal/verifhook"
 	"github.com/thushan/olla/internal/zzverif"
 )
 
@@ -21,6 +24,18 @@ func TestVerif_UnifierBreaker(t *testing.T) {
 	tr := zzverif.OpenTrace()
 	defer tr.Close()
 	cfg := DefaultConfig()
+	// scheduler gate at unifier.breaker.halfopen (between Allow's load of the state -- "open", timeout
+	// elapsed -- and its transition to half-open): one caller of a Race is held there while the others run
+	var hold atomic.Bool
+	parked := make(chan struct{}, 1)
+	release := make(chan struct{}, 1)
+	verifhook.Set(func(name, key string) {
+		if name == "unifier.breaker.halfopen" && hold.CompareAndSwap(true, false) {
+			parked <- struct{}{}
+			<-release
+		}
+	})
+	defer verifhook.Set(nil)
 	for i, raw := range zzverif.LoadScenarios() {
 		var steps []json.RawMessage
 		if err := json.Unmarshal(raw, &steps); err != nil {
@@ -46,6 +61,46 @@ func TestVerif_UnifierBreaker(t *testing.T) {
 					res = "admit"
 				}
 				emit("Ask", "res", res)
+			case "Race":
+				// n overlapping Allow() calls; the first is held at the gate if it gets there
+				n := zzverif.Int(args[0])
+				var admits atomic.Int64
+				var wg sync.WaitGroup
+				call := func() {
+					defer wg.Done()
+					if cb.Allow() {
+						admits.Add(1)
+					}
+				}
+				hold.Store(true)
+				wg.Add(1)
+				firstDone := make(chan struct{})
+				go func() { call(); close(firstDone) }()
+				isParked := false
+				select {
+				case <-parked:
+					isParked = true
+				case <-firstDone:
+					hold.Store(false)
+				case <-time.After(5 * time.Second):
+					hold.Store(false)
+				}
+				for k := 1; k < n; k++ {
+					wg.Add(1)
+					go call()
+				}
+				if isParked {
+					time.Sleep(5 * time.Millisecond) // let the others run (or block) before the held caller goes on
+					release <- struct{}{}
+				}
+				all := make(chan struct{})
+				go func() { wg.Wait(); close(all) }()
+				select {
+				case <-all:
+					emit("Race", "n", n, "admits", admits.Load(), "parked", isParked)
+				case <-time.After(10 * time.Second):
+					emit("Hang", "n", n)
+				}
 			case "Fail":
 				mgr.RecordFailure("http://e1", errors.New("boom"))
 				emit("Fail")
